@@ -251,27 +251,37 @@ theorem reprio_abs [StrictWeak lt] {s : HH} (h : WF lt s) {k : Nat} (hk : k ∈ 
     · have : (s.tag j).key ≠ (s.tag a).key := fun he => hja (h.key_inj hj ha he)
       simp [norm, hja, this]
 
-theorem enqueue_abs [StrictWeak lt] [IgnoresHidx lt] {s : HH} (h : WF lt s) (it : Item) (k : Nat) (d i : Int)
+/-- what the optional growth step of `enqueue` has to deliver -/
+def GrowOK (lt : Order) (s : HH) : Prop :=
+  ∃ s1, (if s.count = 2 ^ s.exp then grow s else pure s) = .ok s1 ∧ WF lt s1 ∧
+      s1.count < 2 ^ s1.exp ∧ abs s1 = abs s ∧ s1.counter = s.counter ∧ s1.expInit = s.expInit ∧
+      s.exp ≤ s1.exp ∧ s1.count = s.count
+
+theorem growOK_of_room {s : HH} (h : WF lt s) (hroom : s.count < 2 ^ s.exp) : GrowOK lt s := by
+  have : s.count ≠ 2 ^ s.exp := by omega
+  unfold GrowOK
+  rw [if_neg this]
+  exact ⟨s, rfl, h, hroom, rfl, rfl, rfl, Nat.le_refl _, rfl⟩
+
+theorem growOK [IgnoresHidx lt] {s : HH} (h : WF lt s) (hroom : s.count < 2 ^ s.exp ∨ s.exp < 31) : GrowOK lt s := by
+  by_cases hfull : s.count = 2 ^ s.exp
+  · unfold GrowOK
+    rw [if_pos hfull]
+    obtain ⟨s1, hrun, hwf1, he, hc, hei, hct, hn⟩ := grow_spec h (by omega)
+    refine ⟨s1, hrun, hwf1, ?_, abs_congr s s1 hc hn, hct, hei, by omega, hc⟩
+    rw [hc, he, hfull]
+    exact Nat.pow_lt_pow_right (by decide) (by omega)
+  · have := h.countLe
+    exact growOK_of_room h (by omega)
+
+theorem enqueue_abs_of_grow [StrictWeak lt] {s : HH} (h : WF lt s) (it : Item) (k : Nat) (d i : Int)
     (hk0 : (if k = 0 then s.counter + 1 else k) ≠ 0) (hk64 : (if k = 0 then s.counter + 1 else k) < 2 ^ 64)
     (hfresh : (if k = 0 then s.counter + 1 else k) ∉ keys (abs s))
-    (hroom : s.count < 2 ^ s.exp ∨ s.exp < 31) :
+    (hg : GrowOK lt s) :
     ∃ s', enqueue lt s it k d i = .ok (s', if k = 0 then s.counter + 1 else k) ∧ WF lt s' ∧
       (abs s').Perm (KPQ.insert (abs s) ⟨if k = 0 then s.counter + 1 else k, 0, it, d, i⟩) ∧
       s'.counter = s.counter + 1 ∧ s'.expInit = s.expInit ∧ s.exp ≤ s'.exp ∧ s'.count = s.count + 1 := by
   generalize hk' : (if k = 0 then s.counter + 1 else k) = k' at *
-  -- the state after the optional growth
-  have hg : ∃ s1, (if s.count = 2 ^ s.exp then grow s else pure s) = .ok s1 ∧ WF lt s1 ∧
-      s1.count < 2 ^ s1.exp ∧ abs s1 = abs s ∧ s1.counter = s.counter ∧ s1.expInit = s.expInit ∧
-      s.exp ≤ s1.exp ∧ s1.count = s.count := by
-    by_cases hfull : s.count = 2 ^ s.exp
-    · rw [if_pos hfull]
-      obtain ⟨s1, hrun, hwf1, he, hc, hei, hct, hn⟩ := grow_spec h (by omega)
-      refine ⟨s1, hrun, hwf1, ?_, abs_congr s s1 hc hn, hct, hei, by omega, hc⟩
-      rw [hc, he, hfull]
-      exact Nat.pow_lt_pow_right (by decide) (by omega)
-    · rw [if_neg hfull]
-      have := h.countLe
-      exact ⟨s, rfl, h, by omega, rfl, rfl, rfl, Nat.le_refl _, rfl⟩
   obtain ⟨s1, hrun1, hwf1, hroom1, habs1, hct1, hei1, hexp1, hc1⟩ := hg
   have hfresh1 : ∀ j, InR s1.count j → (s1.tag j).key ≠ k' := by
     intro j hj he
@@ -302,5 +312,14 @@ theorem enqueue_abs [StrictWeak lt] [IgnoresHidx lt] {s : HH} (h : WF lt s) (it 
     · rintro (rfl | ⟨t, ht, rfl⟩)
       · exact ⟨_, (hl _).2 (Or.inr rfl), rfl⟩
       · exact ⟨t, (hl _).2 (Or.inl ht), rfl⟩
+
+theorem enqueue_abs [StrictWeak lt] [IgnoresHidx lt] {s : HH} (h : WF lt s) (it : Item) (k : Nat) (d i : Int)
+    (hk0 : (if k = 0 then s.counter + 1 else k) ≠ 0) (hk64 : (if k = 0 then s.counter + 1 else k) < 2 ^ 64)
+    (hfresh : (if k = 0 then s.counter + 1 else k) ∉ keys (abs s))
+    (hroom : s.count < 2 ^ s.exp ∨ s.exp < 31) :
+    ∃ s', enqueue lt s it k d i = .ok (s', if k = 0 then s.counter + 1 else k) ∧ WF lt s' ∧
+      (abs s').Perm (KPQ.insert (abs s) ⟨if k = 0 then s.counter + 1 else k, 0, it, d, i⟩) ∧
+      s'.counter = s.counter + 1 ∧ s'.expInit = s.expInit ∧ s.exp ≤ s'.exp ∧ s'.count = s.count + 1 :=
+  enqueue_abs_of_grow h it k d i hk0 hk64 hfresh (growOK h hroom)
 
 end CimbaModel.HashHeap
